@@ -59,6 +59,10 @@ func (p *public) Verify(m Message, sig Signature) error {
 	if !ok {
 		return ErrInvalidSig
 	}
+	// the pairing code dereferences nil when handed the neutral element of either group
+	if osig.sig.GetPoint().IsZero() || p.pk.GetPoint().IsZero() {
+		return ErrSigMismatch
+	}
 	if ok := g2pubs.Verify(m, p.pk, osig.sig); ok {
 		return nil
 	}
